@@ -1,6 +1,7 @@
 import DriverLib.Json
 import NotationCore.Model.Revocation
 import DriverLib.Chain
+import NotationCore.Spec.Monitors
 /-! driver handlers: per-certificate revocation check (C04, C05, C06, C10, C11, C12) -/
 namespace DriverLib
 open Lean NotationCore
@@ -104,9 +105,97 @@ def contactJson : Revocation.Contact → Json
   | .ocsp u => jarr [jstr "ocsp", jstr u]
   | .crl u => jarr [jstr "crl", jstr u]
 
+def resultOfName (s : String) : E Result :=
+  match s with
+  | "unknown" => pure .unknown | "ok" => pure .ok | "nonRevokable" => pure .nonRevokable | "revoked" => pure .revoked
+  | _ => throw s!"result {s}"
+def methodOfName (s : String) : E Method :=
+  match s with
+  | "unknown" => pure .unknown | "ocsp" => pure .ocsp | "crl" => pure .crl | "ocspFallbackCrl" => pure .ocspFallbackCrl
+  | _ => throw s!"method {s}"
+
+def serverResultOf (j : Json) : E ServerResult := do
+  pure { result := ← resultOfName (← fldStr j "result"), server := ← fldStr j "server",
+         method := ← methodOfName (← fldStr j "method"), err := ← fldStr j "err" }
+
+def certResultOf (j : Json) : E CertResult := do
+  pure { result := ← resultOfName (← fldStr j "result"), method := ← methodOfName (← fldStr j "method"),
+         servers := ← fldList j "servers" serverResultOf }
+
+def contactOf (j : Json) : E Revocation.Contact := do
+  let a ← j.getArr?
+  if h : a.size = 2 then
+    match (← a[0].getStr?) with
+    | "ocsp" => pure (.ocsp (← a[1].getStr?))
+    | _ => pure (.crl (← a[1].getStr?))
+  else throw "contact"
+
+def firstSome {α} (l : List α) (f : α → Option String) : Option String := l.findSome? f
+
+/-- the property monitors evaluated on what the implementation returned -/
+def monitorValidate (prop mode : String) (st : Int) (levels : List (Revocation.Env × Revocation.Cert))
+    (modelErr : Bool) (impl : Json) : E (Option String) := do
+  if (fldOpt impl "panic").isSome then return some "panic_on_caller"
+  match fldOpt impl "error" with
+  | some e =>
+    let es ← e.getStr?
+    if es != "invalidChain" then return some "unexpected_error_kind"
+    if (fldOpt impl "results_with_error").isSome then return some "results_returned_with_error"
+    if !modelErr then return some "valid_chain_rejected"
+    return none
+  | none =>
+    if modelErr then return some "invalid_chain_accepted"
+    let rs ← fldList impl "results" certResultOf
+    let traces ← fldList impl "traces" (fun t => do arrMap (← t.getArr?) contactOf)
+    -- structural completeness is needed by every per-certificate monitor
+    if rs.length != levels.length + 1 then return some "not_one_result_per_certificate"
+    let zipped := (levels.zip rs).zip (traces ++ List.replicate (levels.length - traces.length) [])
+    let perCert (f : Revocation.Env → Revocation.Cert → CertResult → List Revocation.Contact → Option String) : Option String :=
+      zipped.findSome? (fun (p : ((Revocation.Env × Revocation.Cert) × CertResult) × List Revocation.Contact) => f p.1.1.1 p.1.1.2 p.1.2 p.2)
+    let ocspOnlyMon := fun (env : Revocation.Env) (c : Revocation.Cert) (r : CertResult) (tr : List Revocation.Contact) =>
+      match Monitor.c04 env.ocsp c.ocsp st r with
+      | some x => some x
+      | none => if tr.any Props.isCrlContact then some "standalone_entry_point_contacted_crl" else none
+    let out := match prop with
+      | "C04" => perCert (fun env c r tr =>
+          if mode == "ocsp" then ocspOnlyMon env c r tr
+          else if c.crlDPs.isEmpty then Monitor.c04 env.ocsp c.ocsp st r else Monitor.c06 env c st r)
+      | "C05" => perCert (fun env c r _ =>
+          if mode == "ocsp" then none
+          else if c.ocsp.isEmpty then Monitor.c05 env.crl c.toCrl st r else Monitor.c06 env c st r)
+      | "C06" => perCert (fun env c r tr => if mode == "ocsp" then ocspOnlyMon env c r tr else Monitor.c06 env c st r)
+      | "C10" => perCert (fun env c r _ =>
+          if mode == "ocsp" || !c.ocsp.isEmpty then none
+          else match c.crlDPs with
+            | [u] =>
+              match env.crl.fetch u with
+              | .bundle b =>
+                if Crl.validate env.crl.now b && !(c.hasFreshest && b.delta.isNone) then
+                  let es := b.base.entries ++ (match b.delta with | some d => d.entries | none => [])
+                  let v : Option Crl.EntryVerdict := match r.result with
+                    | .ok => some .ok | .revoked => some .revoked | .unknown => some .err | .nonRevokable => none
+                  match v with
+                  | some v => Monitor.c10 c.serial st es v
+                  | none => some "nonrevokable_with_distribution_point"
+                else Monitor.c05 env.crl c.toCrl st r
+              | .fail => Monitor.c05 env.crl c.toCrl st r
+            | _ => Monitor.c05 env.crl c.toCrl st r)
+      | "C11" => perCert (fun env c r tr => if mode == "ocsp" then ocspOnlyMon env c r tr else Monitor.c11 env c st r tr)
+      | "C12" =>
+        if mode == "ocsp" then
+          -- standalone entry point: completeness and the OCSP shape per certificate
+          if rs[levels.length]?.map (·.result) != some .nonRevokable then some "root_not_nonrevokable"
+          else perCert (fun _ c r _ =>
+            if r.method != .ocsp then some "standalone_result_not_labelled_ocsp"
+            else if c.ocsp.isEmpty then (if r.result == .nonRevokable then none else some "no_responder_must_be_nonrevokable")
+            else if Monitor.ocspShapeB c.ocsp r.result r.servers then none else some "ocsp_result_shape")
+        else Monitor.c12 (levels.map (·.2)) rs
+      | _ => none
+    return out
+
 /-- in: {chain:{purpose, certs, sig, sigSelf, st}, certs:[level…], now, st, mode:"full"|"ocsp"}
     out: {error:"invalidChain"} | {results:[…], traces:[[…]…]} -/
-def handleValidate (j : Json) : E Json := do
+def handleValidate (prop : String) (j impl : Json) : E Json := do
   let ci ← chainInOf (← fld j "chain")
   let now ← fldTime j "now"
   let st ← fldTime j "st"
@@ -115,12 +204,17 @@ def handleValidate (j : Json) : E Json := do
   let chainOK := Chain.accepted (Chain.validate ci.purpose ci.sig ci.sigSelf ci.chain none)
   let r := if mode == "ocsp" then Revocation.checkStatus ci.chain.length chainOK levels st
            else Revocation.validate ci.chain.length chainOK levels st
+  let modelErr := match r with | .error _ => true | .ok _ => false
+  let verdict ← monitorValidate prop mode st levels modelErr impl
+  let spec := match verdict with
+    | none => jobj [("ok", jbool true)]
+    | some cl => jobj [("ok", jbool false), ("clause", jstr cl)]
   match r with
-  | .error _ => pure (jobj [("error", jstr "invalidChain")])
+  | .error _ => pure (jobj [("model", jobj [("error", jstr "invalidChain")]), ("spec", spec)])
   | .ok rs =>
     let traces := levels.map (fun (p : Revocation.Env × Revocation.Cert) =>
       if mode == "ocsp" then jarr ((Ocsp.contacted p.1.ocsp st p.2.ocsp).map (fun u => jarr [jstr "ocsp", jstr u]))
       else jarr ((Revocation.certTrace p.1 p.2 st).map contactJson))
-    pure (jobj [("results", jarr (rs.map certResultJson)), ("traces", jarr traces)])
+    pure (jobj [("model", jobj [("results", jarr (rs.map certResultJson)), ("traces", jarr traces)]), ("spec", spec)])
 
 end DriverLib
